@@ -26,7 +26,7 @@ def to_str(ver, pfx, a, rng):
 
 
 def scores_of(ver, s):
-    o, e = obs.construct(ver, s)
+    o, e = obs.construct(ver, s, warm=True)
     if o is None:
         return None, e
     try:
